@@ -1689,7 +1689,15 @@ def frag_names(frag):
     out = []
     if frag.tree is None:
         return out
+    aug = {id(n.target) for n in ast.walk(frag.tree)
+           if isinstance(n, ast.AugAssign)}
     for n in ast.walk(frag.tree):
+        if isinstance(n, ast.Name) and id(n) in aug:
+            # x -= 1 reads x before it stores it
+            v = frag.slots.get(n.id, n.id)
+            out.append(("load", v, n))
+            out.append(("store", v, n))
+            continue
         if isinstance(n, ast.Name):
             ctx = type(n.ctx).__name__.lower()
             if n.id in frag.slots:
